@@ -188,7 +188,7 @@ func c08Session(t *rapid.T) {
 	nsteps := rapid.IntRange(2, 14).Draw(t, "steps")
 	reloaded := false
 	for i := 0; i < nsteps; i++ {
-		op := rapid.SampledFrom([]string{"put", "put", "put", "backspace", "change-query", "clear", "toggle-sort", "exclude", "change-nth", "change-nth", "nth-there-and-back", "reload", "burst-of-edits", "settle"}).Draw(t, "op")
+		op := rapid.SampledFrom([]string{"put", "put", "put", "backspace", "change-query", "clear", "toggle-sort", "exclude", "change-nth", "change-nth", "nth-there-and-back", "reload", "reload", "burst-of-edits", "settle"}).Draw(t, "op")
 		delay := time.Duration(rapid.IntRange(0, 30).Draw(t, "delayMs")) * time.Millisecond
 		body := ""
 		switch op {
@@ -273,6 +273,20 @@ func c08Session(t *rapid.T) {
 			excluded = map[string]bool{}
 			reloaded = true
 			labels["reload"] = true
+			if !sync && rapid.IntRange(0, 1).Draw(t, "excludeWhileReloading") == 0 {
+				// an exclude issued after the reload has been accepted, while the old list is still
+				// displayed, refers to the old list: it must not remove anything from the new one
+				cmd = "sleep 0.25; " + cmd
+				for _, b := range []string{"reload(" + cmd + ")", "exclude"} {
+					if code, err := s.Post(b); err != nil || code != 200 {
+						t.Fatalf("POST %s answered %d (%v)\nhistory:\n  %s", b, code, err, strings.Join(history, "\n  "))
+					}
+					history = append(history, "POST "+b)
+					time.Sleep(time.Duration(rapid.SampledFrom([]int{20, 60, 120}).Draw(t, "excludeAfterMs")) * time.Millisecond)
+				}
+				body = ""
+				labels["exclude_while_reloading"] = true
+			}
 		case "exclude":
 			<-feedDone
 			feedDone <- nil
